@@ -274,6 +274,7 @@ def run(ctx: vlib.Ctx):
     coq_cases, recs = [], []
     n_fail = 0
     seen_sigs = set()
+    known = vlib.load_findings("C08")
     for k, case in enumerate(cases):
         via_hook = k >= len(corpus) and k % 5 == 0
         if via_hook:
@@ -311,7 +312,7 @@ def run(ctx: vlib.Ctx):
             if sig in seen_sigs:
                 continue
             seen_sigs.add(sig)
-            small = shrink(case, sig, scratch)
+            small = case if vlib.match_finding(known, sig) else shrink(case, sig, scratch)
             ctx.fail(sig, msg, {"case": small, "unshrunk": case})
         coq_cases.append(c_case(case, obs))
         recs.append((case, obs))
